@@ -20,7 +20,7 @@ func specKey(c byte) int {
 
 // specLess: x sorts before y, comparing from position i on (the first i symbols are equal).
 //
-//@ opaque
+// @ opaque
 func specLess(x, y string, i int) bool {
 	if i >= len(x) || i >= len(y) {
 		return len(x) < len(y)
@@ -37,18 +37,18 @@ func specPrefix(path, prefix string) bool {
 		(len(path) == len(prefix) || path[len(prefix)] == '.')
 }
 
-//@ props C44
-//@ mode int
-//@ loop 1 invariant 0 <= i && specLess(x, y, 0) == specLess(x, y, i)
-//@ loop 1 invariant forall(0, i, func(k int) bool { return k >= len(x) || k >= len(y) || x[k] == y[k] })
-//@ loop 1 decreases len(x) - i
+// @ props C44
+// @ mode int
+// @ loop 1 invariant 0 <= i && specLess(x, y, 0) == specLess(x, y, i)
+// @ loop 1 invariant forall(0, i, func(k int) bool { return k >= len(x) || k >= len(y) || x[k] == y[k] })
+// @ loop 1 decreases len(x) - i
 func contract_lessPath(x, y string) (r bool) {
 	ensures(r == specLess(x, y, 0))
 	return
 }
 
-//@ props C44
-//@ mode int
+// @ props C44
+// @ mode int
 func contract_hasPathPrefix(path, prefix string) (r bool) {
 	ensures(r == specPrefix(path, prefix))
 	return
@@ -58,9 +58,9 @@ func contract_hasPathPrefix(path, prefix string) (r bool) {
 
 // No path sorts before itself.
 //
-//@ props C44
-//@ mode int
-//@ decreases len(x) - i
+// @ props C44
+// @ mode int
+// @ decreases len(x) - i
 func lemma_LessIrreflexive(x string, i int) {
 	requires(0 <= i && i <= len(x))
 	if i < len(x) {
@@ -71,9 +71,9 @@ func lemma_LessIrreflexive(x string, i int) {
 
 // Two paths never sort before each other.
 //
-//@ props C44
-//@ mode int
-//@ decreases len(x) - i
+// @ props C44
+// @ mode int
+// @ decreases len(x) - i
 func lemma_LessAsymmetric(x, y string, i int) {
 	requires(0 <= i && i <= len(x))
 	if i < len(x) && i < len(y) && x[i] == y[i] {
@@ -84,9 +84,9 @@ func lemma_LessAsymmetric(x, y string, i int) {
 
 // Two different paths are always ordered one way or the other.
 //
-//@ props C44
-//@ mode int
-//@ decreases len(x) - i
+// @ props C44
+// @ mode int
+// @ decreases len(x) - i
 func lemma_LessTotal(x, y string, i int) {
 	requires(0 <= i && i <= len(x) && i <= len(y))
 	requires(forall(0, i, func(k int) bool { return x[k] == y[k] }))
@@ -98,9 +98,9 @@ func lemma_LessTotal(x, y string, i int) {
 
 // The order is transitive.
 //
-//@ props C44
-//@ mode int
-//@ decreases len(x) - i
+// @ props C44
+// @ mode int
+// @ decreases len(x) - i
 func lemma_LessTransitive(x, y, z string, i int) {
 	requires(0 <= i && i <= len(x))
 	if i < len(x) && i < len(y) && i < len(z) && x[i] == y[i] && y[i] == z[i] {
@@ -113,8 +113,8 @@ func lemma_LessTransitive(x, y, z string, i int) {
 
 // A path covers itself, and covering is transitive.
 //
-//@ props C44
-//@ mode int
+// @ props C44
+// @ mode int
 func lemma_PrefixPreorder(p, q, r string) {
 	ensures(specPrefix(p, p))
 	ensures(imp(specPrefix(p, q) && specPrefix(q, r), specPrefix(p, r)))
@@ -122,9 +122,9 @@ func lemma_PrefixPreorder(p, q, r string) {
 
 // A path sorts before every other path it covers (parents come first).
 //
-//@ props C44
-//@ mode int
-//@ decreases len(x) - i
+// @ props C44
+// @ mode int
+// @ decreases len(x) - i
 func lemma_ParentFirst(z, x string, i int) {
 	requires(0 <= i && i <= len(x))
 	requires(specPrefix(z, x) && z != x)
@@ -139,9 +139,9 @@ func lemma_ParentFirst(z, x string, i int) {
 // that starts at x. This is what makes "compare with the previously kept path" in
 // normalizePaths sufficient.
 //
-//@ props C44
-//@ mode int
-//@ decreases len(x) - i
+// @ props C44
+// @ mode int
+// @ decreases len(x) - i
 func lemma_CoveredInterval(x, y, z string, i int) {
 	requires(0 <= i && i <= len(x) && i <= len(y))
 	requires(specPrefix(z, x))
@@ -157,8 +157,8 @@ func lemma_CoveredInterval(x, y, z string, i int) {
 
 // Two adjacent result paths of normalizePaths are strictly ordered.
 //
-//@ props C44
-//@ mode int
+// @ props C44
+// @ mode int
 func lemma_StrictFromNotCovered(a, b string) {
 	requires(!specLess(b, a, 0) && !specPrefix(b, a))
 	lemma_LessTotal(a, b, 0)
@@ -169,15 +169,15 @@ func lemma_StrictFromNotCovered(a, b string) {
 // cover it. The result is strictly ascending and no kept path is covered by its predecessor;
 // by lemma_CoveredInterval that makes the whole result prefix-free.
 //
-//@ props C44
-//@ mode int
-//@ abstract specPrefix specLess
-//@ loop 1 split
-//@ loop 1 invariant 0 <= loopIndex && loopIndex <= len(paths)
-//@ loop 1 invariant sameBase(out, paths) && offsetIn(out, paths) == 0 && len(out) <= loopIndex && cap(out) == cap(paths)
-//@ loop 1 invariant forall(0, len(paths), func(a int) bool { return forall(0, len(paths), func(b int) bool { return imp(loopIndex <= a && a < b, !specLess(paths[b], paths[a], 0)) }) })
-//@ loop 1 invariant forall(1, len(out), func(k int) bool { return !specLess(out[k], out[k-1], 0) && !specPrefix(out[k], out[k-1]) })
-//@ loop 1 invariant forall(0, len(paths), func(a int) bool { return imp(len(out) > 0 && loopIndex <= a, !specLess(paths[a], out[len(out)-1], 0)) })
+// @ props C44
+// @ mode int
+// @ abstract specPrefix specLess
+// @ loop 1 split
+// @ loop 1 invariant 0 <= loopIndex && loopIndex <= len(paths)
+// @ loop 1 invariant sameBase(out, paths) && offsetIn(out, paths) == 0 && len(out) <= loopIndex && cap(out) == cap(paths)
+// @ loop 1 invariant forall(0, len(paths), func(a int) bool { return forall(0, len(paths), func(b int) bool { return imp(loopIndex <= a && a < b, !specLess(paths[b], paths[a], 0)) }) })
+// @ loop 1 invariant forall(1, len(out), func(k int) bool { return !specLess(out[k], out[k-1], 0) && !specPrefix(out[k], out[k-1]) })
+// @ loop 1 invariant forall(0, len(paths), func(a int) bool { return imp(len(out) > 0 && loopIndex <= a, !specLess(paths[a], out[len(out)-1], 0)) })
 func contract_normalizePaths(paths []string) (r []string) {
 	modifiesElems(paths)
 	ensures(sameBase(r, paths) && offsetIn(r, paths) == 0 && len(r) <= len(paths))
@@ -192,8 +192,8 @@ func contract_normalizePaths(paths []string) (r []string) {
 
 // The four cases of Intersect's merge step are exhaustive (so each step advances a cursor).
 //
-//@ props C44
-//@ mode int
+// @ props C44
+// @ mode int
 func lemma_IntersectCasesExhaustive(s1, s2 string) {
 	lemma_LessTotal(s1, s2, 0)
 	ensures(specPrefix(s1, s2) || specPrefix(s2, s1) || specLess(s1, s2, 0) || specLess(s2, s1, 0))
@@ -205,7 +205,7 @@ func lemma_IntersectCasesExhaustive(s1, s2 string) {
 // yields - including empty fields for a leading, trailing or doubled dot (the comment of
 // rangeFields: "like strings.Split(path, \".\")"). f is a pure predicate here.
 //
-//@ opaque
+// @ opaque
 func specFieldsOK(path string, f func(field string) bool) bool {
 	i := strings.IndexByte(path, '.')
 	if i < 0 {
@@ -219,10 +219,10 @@ func specFieldsOK(path string, f func(field string) bool) bool {
 // fields. (numValidPaths passes a callback that also tracks the current message; that use is
 // outside this contract.)
 //
-//@ props C44
-//@ mode int
-//@ pure-funcvalues
-//@ loop 1 invariant specFieldsOK(old(path), f) == specFieldsOK(path, f)
+// @ props C44
+// @ mode int
+// @ pure-funcvalues
+// @ loop 1 invariant specFieldsOK(old(path), f) == specFieldsOK(path, f)
 func contract_rangeFields(path string, f func(field string) bool) (r bool) {
 	modifiesAll()
 	ensures(r == specFieldsOK(path, f))
